@@ -29,19 +29,20 @@ Example C17_ex_valid_bs : forall page bs,
   (0 < bs /\ (bs < page -> exists k, 0 <= k /\ bs = 2 ^ k) /\ (page <= bs -> bs mod page = 0)).
 Proof. intros. reflexivity. Qed.
 
+Definition C17_ex_geom (r : ctor_res) : option (Z * Z * Z) :=
+  match r with CtorOk b => Some (segments b, blocks_count b, available b) | _ => None end.
+
 Example C17_ex_ctor :
-  (exists b, new_blocks 4096 1 (zero_buffer 18) true = CtorOk b /\ segments b = 2 /\ blocks_count b = 16 /\ available b = 16) /\
-  (exists b, new_blocks 4096 1 (zero_buffer 19) false = CtorOk b /\ segments b = 2) /\
+  C17_ex_geom (new_blocks 4096 1 (zero_buffer 18) true) = Some (2, 16, 16) /\
+  C17_ex_geom (new_blocks 4096 1 (zero_buffer 19) false) = Some (2, 16, 16) /\
   new_blocks 4096 1 (zero_buffer 19) true = CtorErr EInvalid /\
   new_blocks 4096 1 (zero_buffer 8) false = CtorErr EInvalid /\
   new_blocks 4096 3 (zero_buffer 1000) false = CtorErr EInvalid /\
   new_blocks 4096 5000 (zero_buffer 300000000) false = CtorErr EInvalid /\
   new_blocks 4096 0 (zero_buffer 1000) true = CtorErr EInvalid /\
   new_blocks 4096 (-1) (zero_buffer 1000) false = CtorErr EInvalid /\
-  (exists b, new_blocks 4096 8192 (zero_buffer 536879104) true = CtorOk b /\ blocks_count b = 65536).
-Proof.
-  repeat split; try (vm_compute; reflexivity); eexists; repeat split; vm_compute; reflexivity.
-Qed.
+  C17_ex_geom (new_blocks 4096 8192 (zero_buffer 536879104) true) = Some (1, 65536, 65536).
+Proof. vm_compute. repeat split; reflexivity. Qed.
 
 (** the constructor as it was before the fix (defect D4) *)
 Theorem C17_legacy_ctor_refuted :
@@ -94,9 +95,10 @@ Theorem C17_arrange_fresh : forall page fit b b' i, reachable page fit b ->
 Proof. exact arrange_fresh. Qed.
 Print Assumptions C17_arrange_fresh.
 
-Example C17_ex_arrange : exists b', arrange C17_ex_b = (b', ArrIdx 8) /\
-  alloc_list b' = [0; 1; 2; 3; 4; 5; 6; 7; 8; 9; 10; 11; 12; 13; 14; 15].
-Proof. eexists. split; vm_compute; reflexivity. Qed.
+Example C17_ex_arrange :
+  snd (arrange C17_ex_b) = ArrIdx 8 /\
+  alloc_list (fst (arrange C17_ex_b)) = [0; 1; 2; 3; 4; 5; 6; 7; 8; 9; 10; 11; 12; 13; 14; 15].
+Proof. vm_compute. split; reflexivity. Qed.
 
 Theorem C17_arrange_exhausted_iff_full : forall page fit b, reachable page fit b ->
   ((exists i, snd (arrange b) = ArrIdx i) \/ snd (arrange b) = ArrErr EExhausted) /\
@@ -236,13 +238,17 @@ Theorem C17_state_in_bytes : forall page fit b, reachable page fit b ->
 Proof. exact state_in_bytes. Qed.
 Print Assumptions C17_state_in_bytes.
 
+Definition C17_ex_exh : blocks := fst (arrange (fst (arrange C17_ex_b))).
+Definition C17_ex_reopened : blocks :=
+  match new_blocks 4096 1 (bts C17_ex_exh) true with CtorOk b => b | _ => C17_ex_b0 end.
+
 Example C17_ex_reopen :
-  (exists b0, new_blocks 4096 1 (bts C17_ex_b) true = CtorOk b0 /\
-     alloc_list b0 = alloc_list C17_ex_b /\ available b0 = 1) /\
-  (let exhausted := fst (arrange (fst (arrange C17_ex_b))) in
-   exists b0, new_blocks 4096 1 (bts exhausted) true = CtorOk b0 /\ freeIdx b0 = 0 /\ freeIdx exhausted = 18 /\
-     alloc_list b0 = alloc_list exhausted /\ available b0 = 0).
-Proof. split; eexists; repeat split; vm_compute; reflexivity. Qed.
+  new_blocks 4096 1 (bts C17_ex_exh) true = CtorOk C17_ex_reopened /\
+  freeIdx C17_ex_reopened = 0 /\ freeIdx C17_ex_exh = 18 /\
+  alloc_list C17_ex_reopened = alloc_list C17_ex_exh /\
+  available C17_ex_reopened = 0 /\ available C17_ex_exh = 0 /\
+  length (alloc_list C17_ex_reopened) = 16%nat.
+Proof. vm_compute. repeat split; reflexivity. Qed.
 
 (** * User writes into blocks *)
 
